@@ -51,6 +51,7 @@ type normalizer struct {
 	src     map[string][]byte
 	n       int
 	busy    map[*types.Func]bool
+	extra   map[string]bool // pinned functions that are inlined as well while a flat view is generated
 	Log     []string
 }
 
@@ -136,7 +137,7 @@ func (nz *normalizer) isNewHelper(f *types.Func) bool {
 	if f == nil || f.Pkg() == nil || !strings.HasPrefix(f.Pkg().Path(), Mod) {
 		return false
 	}
-	if nz.pinned[f.FullName()] {
+	if nz.pinned[f.FullName()] && !nz.extra[f.FullName()] {
 		return false
 	}
 	d := nz.decl[f]
@@ -828,9 +829,7 @@ func BuildOverlay(pkgs []*packages.Package, pinned map[string]bool) (map[string]
 			}
 		}
 	}
-	if !anyNew {
-		return nil, nil
-	}
+	_ = anyNew
 	overlay := map[string][]byte{}
 	for _, pk := range pkgs {
 		if !strings.HasPrefix(pk.PkgPath, Mod) {
@@ -845,6 +844,38 @@ func BuildOverlay(pkgs []*packages.Package, pinned map[string]bool) (map[string]
 				}
 				edits = append(edits, nz.stmtEdits(pk, f, fd.Body)...)
 			}
+			// flat views: a copy `<name>__flat` of a designated function with its private helpers inlined as well,
+			// placed on the line of the original's closing brace (all other positions stay as they are)
+			for _, d := range f.Decls {
+				fd, ok := d.(*ast.FuncDecl)
+				if !ok || fd.Body == nil {
+					continue
+				}
+				obj, _ := pk.TypesInfo.Defs[fd.Name].(*types.Func)
+				if obj == nil {
+					continue
+				}
+				callees, want := FlatViews[obj.FullName()]
+				if !want {
+					continue
+				}
+				nz.extra = map[string]bool{}
+				for _, c := range callees {
+					nz.extra[c] = true
+				}
+				fe := nz.stmtEdits(pk, f, fd.Body)
+				nz.extra = nil
+				b := nz.fileBytes(nz.fset.Position(f.Pos()).Filename)
+				body := applyEdits(b, nz.off(fd.Body.Lbrace)+1, nz.off(fd.Body.Rbrace), fe)
+				flat, okF := flatten(body)
+				head, okH := flatten(string(b[nz.off(fd.Pos()):nz.off(fd.Name.Pos())]) + fd.Name.Name + "__flat" + string(b[nz.off(fd.Name.End()):nz.off(fd.Body.Lbrace)]))
+				if !okF || !okH {
+					continue
+				}
+				head = strings.TrimSuffix(strings.TrimSpace(head), ";")
+				edits = append(edits, textEdit{nz.off(fd.Body.Rbrace) + 1, nz.off(fd.Body.Rbrace) + 1, "; " + head + "{ " + flat + " }", 1 << 20})
+				nz.Log = append(nz.Log, "flat view "+obj.FullName()+"__flat generated")
+			}
 			if len(edits) == 0 {
 				continue
 			}
@@ -854,4 +885,15 @@ func BuildOverlay(pkgs []*packages.Package, pinned map[string]bool) (map[string]
 		}
 	}
 	return overlay, nz.Log
+}
+
+// FlatViews: functions of which the normaliser also emits a copy `<name>__flat` in which the listed private
+// helpers (pinned or not) are inlined. Rules that must not depend on how a computation is split into helpers
+// analyse the flat view.
+var FlatViews = map[string][]string{
+	"(*" + PkgG + ".Genome).duplicate": {
+		"(*" + PkgG + ".Genome).duplicateNodes",
+		"(*" + PkgG + ".Genome).duplicateGenes",
+		"(*" + PkgG + ".Genome).duplicateControlGenes",
+	},
 }
